@@ -11,7 +11,7 @@ RULE = ("requests `nms n (aspect height score xc yc angle stale)*n thr sthr`: 0.
         "a rank tie, a box removed by the score/validity filter; distinct = distinct request line")
 TRUSTED_BASE = ["Lean 4.33 kernel", "axioms: propext, Quot.sound, Classical.choice (at most)",
                 "hand-written model SimVerif/Model/Nms.lean tied to src/utils/nms.rs by the differential run (vh | simdrv)",
-                "coverage predicate inter(a,b)/area(b) > thr is computed by the harness with the implementation's own intersection/area (its exactness is C08's business)",
+                "coverage predicate inter(a,b)/area(b) > thr: the model run uses the bits computed by the executor with the implementation's own intersection/area; the oracle additionally recomputes every bit from the exact rational intersection of the model polygons (cos/sin of the angles from the executor, guard band 2e-4 around the threshold) and rejects a disagreement",
                 "f32 ranks and thresholds are compared as exact rationals (NaN/inf never generated)"]
 ASSUMPTIONS = ["scores, heights and thresholds are finite floats (the code unwraps partial_cmp)",
                "idempotence is stated for re-application with the same scores"]
